@@ -42,13 +42,15 @@ def main():
   wt = os.path.join(base, 'wt')
   out = {'dir': d}
   try:
-    subprocess.check_call(['git', '-C', '/repo', 'worktree', 'add', '--detach', '-q', wt])
+    subprocess.check_call(['git', '-C', '/repo', 'worktree', 'add', '--detach', '-q', wt],
+                          stdout=subprocess.DEVNULL, stderr=subprocess.DEVNULL)
     env = dict(os.environ, PYTHONPATH='/tmp/ftshim', PYTHONDONTWRITEBYTECODE='1', PYTHONHASHSEED='0')
     cmd, dst = demo_cmd(d, wt)
     cwd = os.path.join(wt, 'sandbox', 'grist')
     rc0, o0 = run(cmd, cwd, env)
     out['demo_clean_exit'] = rc0
-    rc = subprocess.call(['git', '-C', wt, 'apply', '--3way', os.path.join(d, 'patch.diff')])
+    rc = subprocess.call(['git', '-C', wt, 'apply', '--3way', os.path.join(d, 'patch.diff')],
+                         stdout=subprocess.DEVNULL, stderr=subprocess.DEVNULL)
     out['patch_applies'] = (rc == 0)
     rc1, o1 = run(cmd, cwd, env)
     out['demo_patched_exit'] = rc1
@@ -70,7 +72,8 @@ def main():
       out['baseline_summary'] = [l for l in ob.splitlines() if ' passed' in l][-1:]
     print(json.dumps(out, indent=1))
   finally:
-    subprocess.call(['git', '-C', '/repo', 'worktree', 'remove', '--force', wt])
+    subprocess.call(['git', '-C', '/repo', 'worktree', 'remove', '--force', wt],
+                    stdout=subprocess.DEVNULL, stderr=subprocess.DEVNULL)
     shutil.rmtree(base, ignore_errors=True)
 
 
